@@ -431,3 +431,7 @@ _add(
     "C20",
     m("ultimate-call-hash-before-load", D, "                result, is_cached = self.get_call_cache(cast(str, call_node2.call_hash))\n                if is_cached:", "                call_hash = cast(str, call_node2.call_hash)\n                result, is_cached = self.get_call_cache(call_hash)\n                if is_cached:", "C20.9"),
 )
+_add(
+    "C22",
+    m("is-recorded-before-commit", D, "            recorded.append(parent_handle)\n", "            parent_handle.__handle__.is_recorded = True\n", "C22.2"),
+)
